@@ -29,18 +29,25 @@ def point(label: str, blocked: bool = False) -> bool:
     tid = getattr(_LOCAL, "tid", None)
     if burst is None or tid is None:
         return not blocked
-    return burst.park(tid, label, blocked)
+    ok = burst.park(tid, label, blocked)
+    if tid in burst.crashed:
+        raise ProcessCrash(label)
+    return ok
 
 
-class BurstAbort(Exception):
-    pass
+class ProcessCrash(BaseException):
+    """The server process dies at this seam (not an Exception: no handler of the application may catch it)."""
 
 
 class Burst:
     """Runs callables on baton-passing threads under a seeded schedule."""
 
-    def __init__(self, rng, max_steps: int = 4000, forced: list[int] | None = None) -> None:
+    def __init__(self, rng, max_steps: int = 4000, forced: list[int] | None = None,
+                 crash_at: int | None = None) -> None:
         self.rng = rng
+        self.crash_at = crash_at           # the thread released at this step (1-based) dies at its seam instead
+        self.crashed: set[int] = set()
+        self.crash_label: str | None = None
         self.max_steps = max_steps
         self.forced = list(forced) if forced is not None else None    # replay / shrinking: thread index per step
         self.cv = threading.Condition()
@@ -133,6 +140,9 @@ class Burst:
                     else:
                         self.blocked_since[tid] = self.progress
                     self.schedule.append((tid, self.label.get(tid, "?")))
+                    if self.crash_at is not None and self.steps == self.crash_at and self.label.get(tid) != "start":
+                        self.crashed.add(tid)
+                        self.crash_label = self.label.get(tid)
                     self.current = tid
                     self.cv.notify_all()
             for th in threads:
